@@ -1,13 +1,11 @@
 --------------------------- MODULE MC_PowerLedger ---------------------------
-(* Bounded model for C01 / C02: three channels with launch powers 1, 2, 4; gains/losses 1/4, 1/2, 2 (uniform  *)
-(* and tilted across the channels), ASE additions 0, 1/8, 1, NLI transfers of 0, 1/8, 1/2 of the channel     *)
-(* power, a band boundary after channel 1 or 2.  `hist` records the behaviour so that TLC can emit every     *)
-(* behaviour of MaxDepth operations for the replay into the real SpectralInformation (B2).                   *)
-EXTENDS PowerLedger, TLC, Json
+(* Bounded model for C01 / C02 (B1): three channels with launch powers 1, 2, 4; gains/losses 1/4, 1/2, 2        *)
+(* (uniform and tilted across the channels), ASE additions 0, 1/8, 1, NLI transfers of 0, 1/8, 1/2 of the      *)
+(* channel power, a band boundary after channel 1 or 2; every behaviour of at most MaxDepth operations.        *)
+(* All integers met stay below 2^31 (TLC would stop with an overflow error otherwise).                          *)
+EXTENDS PowerLedger, TLC
 
 CONSTANT MaxDepth
-VARIABLE hist          \* sequence of [op, j, arg, parts, q]: parts = state after the operation,
-                       \* q[c] = <<1/OSNR_ASE, 1/SNR_NLI, 1/GSNR>> of channel c after it
 
 Q(n, d) == <<n, d>>
 MCNCh == 3
@@ -17,26 +15,23 @@ MCAseArgs   == { <<Q(1, 8), Q(1, 8), Q(1, 8)>>, <<Q(1, 1), Q(1, 8), Q(0, 1)>> }
 MCNliArgs   == { <<Q(1, 8), Q(1, 8), Q(1, 8)>>, <<Q(1, 2), Q(1, 8), Q(0, 1)>> }
 MCCuts == {1, 2}
 
-MCInit == Init /\ hist = <<>>
-MCNext == /\ Len(hist) < MaxDepth
-          /\ Next
-          /\ hist' = Append(hist, [op |-> last'.op, j |-> last'.j, arg |-> last'.arg, parts |-> parts',
-                                    q |-> [c \in Chan |-> LET ch == Led(parts', c) IN <<InvOsnr(ch), InvNli(ch), InvGsnr(ch)>>]])
-mcvars == <<parts, last, hist>>
+\* at most MaxDepth operations.  The bound is an explicit counter: TLCGet("level") is not a function of the state
+\* when several workers explore in parallel (measured here: 3 % of the states were missed), a counter is exact.
+VARIABLE depth
+mcvars == <<parts, last, depth>>
+MCInit == Init /\ depth = 0
+MCNext == depth < MaxDepth /\ Next /\ depth' = depth + 1
 
-\* the same clauses over the variables of this module
+\* the action properties of PowerLedger over the variables of this module
+MCDemuxMuxKeepLedger == [][DemuxMuxKeepLedgerStep]_mcvars
 MCKeepsOsnr          == [][KeepsOsnrStep]_mcvars
 MCKeepsNli           == [][KeepsNliStep]_mcvars
 MCLowersOsnr         == [][LowersOsnrStep]_mcvars
 MCLowersNli          == [][LowersNliStep]_mcvars
 MCNeverImprovesGsnr  == [][NeverImprovesGsnrStep]_mcvars
 MCOthersUntouched    == [][OthersUntouchedStep]_mcvars
-MCDemuxMuxKeepLedger == [][DemuxMuxKeepLedgerStep]_mcvars
 
-\* emission for the spec -> code replay (B2): one JSON line per behaviour of MaxDepth operations
-Emit == Len(hist) < MaxDepth \/ PrintT("@@" \o ToJson(hist))
-
-\* witnesses used once to show that no clause is vacuous (each must be VIOLATED when listed as an invariant)
-WitnessNoiseBoth == ~\E ch \in All(parts) : ch.A # RZero /\ ch.N # RZero /\ Len(parts) = 2
+\* vacuity witnesses (each must be VIOLATED when listed as an invariant)
 WitnessMuxAfterOps == ~(last.op = "Mux" /\ \E ch \in All(parts) : ch.A # RZero /\ ch.N # RZero)
+WitnessNoiseInBand == ~(Len(parts) = 2 /\ \E ch \in All(parts) : ch.A # RZero /\ ch.N # RZero)
 ==============================================================================
